@@ -16,3 +16,4 @@ const verifBoundFSCommits = 2
 const verifBoundROTail = 7
 const verifBoundArchive = 2
 const verifBoundDataLossBytes = 14
+const verifBoundConjoinChunks = 1
